@@ -48,13 +48,15 @@ PROP = {'rule': 'rapid state machine (-rapid.steps=50) over the real migration R
                  '"an expired job deletes its reservation" is read as: a job failed with reason Timeout leaves no Reservation under the '
                  'reference persisted in its spec; a Reservation whose reference was never persisted (job update failed) is counted, not asserted',
                  'the given-up reservation state and the Preemption interpreter exist only in TestVerifC17Extended (stock koord-scheduler / stock interpreter never produce them)',
+                 'TestVerifC17OwnersPruned assumes some writer prunes status.currentOwners when the consuming pod goes away although the reservation is already Succeeded (this tree\'s scheduler controller stops syncing Succeeded reservations; the migration controller explicitly treats Succeeded-without-bound-pod as taken)',
                  'a rejected Evict call counts as an API error for the "at most once without API errors" clause'],
  'units': [{'name': 'migration',
             'pkg': 'pkg/descheduler/controllers/migration',
             'files': ['C17/c17_migration_test.go'],
             'tests': [{'run': 'TestVerifC17History', 'quick': 600, 'quick_shards': 3, 'thorough': 3000, 'steps': 50},
                       {'run': 'TestVerifC17UserInput', 'quick': 600, 'quick_shards': 2, 'thorough': 3000, 'shards': 4, 'steps': 50},
-                      {'run': 'TestVerifC17Extended', 'quick': 600, 'quick_shards': 3, 'thorough': 3000, 'shards': 4, 'steps': 50}]}],
+                      {'run': 'TestVerifC17Extended', 'quick': 600, 'quick_shards': 3, 'thorough': 3000, 'shards': 4, 'steps': 50},
+                      {'run': 'TestVerifC17OwnersPruned', 'quick': 600, 'quick_shards': 1, 'thorough': 3000, 'shards': 2, 'steps': 50}]}],
  'manifest': {'technique': 'property-based testing (rapid): state-machine histories of reconcile / environment / clock / restart / '
                            'fault-injection actions against the real controller, with a recording evictor and an independent oracle on the raw API objects',
               'text': 'Generated-history search: every Evict call of a reservation-first job is stamped with the persisted Reservation and pod '
